@@ -429,6 +429,10 @@ class Run:
             srcs = self.source_ids(worker.id, need["locations"], node.params)
             need["sources"] = srcs
             if not self.present_for(worker.id, (need["object"], need["state"]), srcs):
+                key = (need["object"], need["state"])
+                # where the state is at this moment (pools looked at so far), for the classification of findings
+                need["holders_now"] = sorted(w for w, store in self.own.items() if store.get(key) is True)
+                need["shared_now"] = self.shared.get(key) is True
                 missing.append(need)
         real_missing = None
         if self.config.real_layer:
